@@ -28,7 +28,9 @@ ASSUMPTIONS = ['weights are cast to the dtype of f first (documented: "If not of
                'pixels whose exact result lies outside the dtype range are not compared (C++ double->integer cast undefined)',
                'array and kernel values are integers or dyadic fractions of small magnitude, so every double operation is exact '
                'and the comparison is bit-for-bit (as numbers: -0.0 == 0.0)',
-               'Gaussian filters: comparison within 1e-11*(1+max|f|) (float64) / 1e-5 relative (float32); sigma on a grid with '
+               'Gaussian filters: comparison within 1e-11*(1+max|f|) (float64); float32: within 1 ulp of float32 of the model accumulator cast to float32 '
+               '(+ 2 ulp at the data scale per further pass of the n-D filter); convolve/convolve1d: bit-for-bit for every dtype (float32 = the '
+               'correctly rounded cast of the double accumulator), on data that includes +-2^24..2^26 mixed with units; sigma on a grid with '
                'dyadic values (4*sigma+0.5 exact in double, exact ties included); constant mode only with cval = 0 (the only value accepted)',
                'order-1 ramp response: |r - 1| < 5e-3 for sigma >= 1 at pixels farther than 4 sigma + 1 from the border',
                'no NaN/inf in arrays or kernels; sizes < 2^31']
@@ -70,7 +72,8 @@ def _line(case):
         return base + (f" sigma={core.fmt_floats([case['sigma']])} order={case['order']} axis={case['axis']} "
                        f"contig={int(case.get('_contig', 1))}")
     if k == 'gaussian':
-        return base + f" sigma={core.fmt_floats(case['sigma'])} order={gen.enc_arr(case['order'])}"
+        return (base + f" sigma={core.fmt_floats(case['sigma'])} order={gen.enc_arr(case['order'])}"
+                + (' sform=scalar' if case.get('sigma_scalar') else '') + (' oform=scalar' if case.get('order_scalar') else ''))
     raise ValueError(k)
 
 
@@ -227,6 +230,11 @@ def _judge(case, got, drv):
     k = case['kind']
     if 'error' in drv:
         raise core.Infra('driver: ' + drv['error'])
+    if drv.get('raises') == 'ValueError':
+        # a sigma / order sequence whose length is not the rank: `_normalize_sequence` must raise ValueError (model: none)
+        if got is not None or 'ValueError' not in case.get('_error', ''):
+            return [dict(kind='model', key='gaussian:normalize-sequence', detail=dict(error=case.get('_error', ''), returned=got is not None))]
+        return []
     if got is None:
         return [dict(kind='property', key=f'{k}:raises', detail=dict(error=case.get('_error', '')))]   # every input of the domain is valid
     A = _arr(case)
@@ -254,7 +262,16 @@ def _judge(case, got, drv):
         return out
     if k in ('gaussian1d', 'gaussian'):
         scale = 1.0 + float(np.max(np.abs(A))) if A.size else 1.0
-        tol = (1e-11 if A.dtype == np.float64 or A.dtype.kind != 'f' else 1e-5) * scale
+        tol = 1e-11 * scale              # float64 output: the weights go through exp and numpy's pairwise sum
+        if A.dtype == np.float32:
+            # float32 output: `model` is the model's double accumulator cast to float32 (round to nearest even, as the C cast).
+            # The real value is the cast of a double accumulator that differs from the model's by <= 1e-11*scale, so it is the
+            # same float32 or a neighbour: within 1 ulp of float32 at the model value (plus the double-level floor); for the
+            # n-D filter every further pass can move an intermediate float32 by one ulp at the scale of the data
+            with np.errstate(all='ignore'):
+                ulp = np.spacing(np.abs(model).astype(np.float32)).astype(np.float64)
+                extra = (len(case['shape']) - 1) * 2.0 * float(np.spacing(np.float32(scale))) if k == 'gaussian' else 0.0
+            tol = np.maximum(ulp, 1e-11 * scale) + extra
         err = np.abs(g - model)
         bad = np.nonzero(~(err <= tol))[0]
         if bad.size:
@@ -419,6 +436,12 @@ def _values(rng, n, dtype):
         return [rng.randint(0, 9) for _ in range(n)]
     if dt.kind == 'i':
         return [rng.randint(-6, 9) for _ in range(n)]
+    if rng.random() < 0.15:
+        # cancellation-heavy data: +-2^24..2^26 mixed with small numbers. Every product with a small dyadic weight and every
+        # partial sum is exact in double, but a single-precision accumulator loses the small terms (2^25 + 1 - 2^25 = 0),
+        # so it cannot hide in a tolerance; the final cast to float32 is the correctly rounded one
+        pool = [2.0 ** 24, -2.0 ** 24, 2.0 ** 25, -2.0 ** 25, 2.0 ** 26, -2.0 ** 26, 1.0, -1.0, 3.0, 0.5, 1.0, 0.0]
+        return [rng.choice(pool) for _ in range(n)]
     if rng.random() < 0.3:
         return [rng.randint(-24, 36) / 4.0 for _ in range(n)]
     return [float(rng.randint(-6, 9)) for _ in range(n)]
@@ -590,6 +613,11 @@ def cases(rng, tier):
                     c['order'] = [c['order'][0]] * nd
                     c['order_scalar'] = True
                 c['as_tuple'] = rng.random() < 0.5
+                if rng.random() < 0.06:
+                    # a sequence of the wrong length: ValueError from `_normalize_sequence`
+                    which = rng.choice(['sigma', 'order'])
+                    c.pop('sigma_scalar', None) if which == 'sigma' else c.pop('order_scalar', None)
+                    c[which] = (c[which] + [c[which][0]]) if rng.random() < 0.5 or nd == 1 else c[which][:-1]
     return out
 
 
